@@ -42,8 +42,8 @@ TRUSTED_BASE = [
     '(no other thread runs in between); finer interleavings inside a step are not explored',
     '"released" is observed as: Transaction._connection is None and the DB-API connection it held is closed or back in the parent\'s pool',
     'outside the model: BaseExceptions that are not Exceptions; nested doInTransaction (the inner call opens an independent transaction on '
-    'another DB-API connection); commit(close=True) raising out of the instance-expiry loop (C07 finding expire_raises_on_attributeless_instance: '
-    'the hub is restored by the finally clause, the work IS committed, the transaction is left open)',
+    'another DB-API connection); commit(close=True) raising after the database commit (no cause is known any more since expire() was '
+    'repaired in 1aded16; the harness still prepares that environment -- "poison" -- in a tenth of the cases and the oracle reports it)',
     'the correspondence harness tools/props/c08.py and the cases.v evaluation',
 ]
 
@@ -173,7 +173,8 @@ def corpus():
     for c in out:
         c['cache'] = True
         c['poison'] = [None] * len(c['bodies'])
-    # witnesses of the finding commit_raises_after_commit: the body touches the row whose parent-side instance is broken
+    # witnesses of the FIXED finding commit_raises_after_commit (1aded16): the body touches the row whose parent-side instance
+    # has its flag clear and no attributes; doInTransaction must simply return
     out.append({'mode': 'process', 'rows': rows, 'cache': False, 'poison': [1, None],
                 'bodies': [[['update', 1, 0, 5], ['create', 3, 3]], []], 'sched': [0, 0, 0, 0]})
     out.append({'mode': 'thread', 'rows': rows, 'cache': False, 'poison': [None, 2],
@@ -484,8 +485,8 @@ def cresult(r):
             return '(Return [(-777)])'        # not the value of the body: never what the model computes
         return '(Return [%s])' % '; '.join(z(i) for i in r[1])
     code = r[1]
-    e = {'XUser': '(XUser %d%%nat)' % r[2], 'XNotFound': 'XNotFound', 'XLocked': 'XLocked', 'XNoConnection': 'XNoConnection',
-         'XCommit': 'XCommit'}.get(code, 'XNested')
+    # anything else (e.g. XCommit: an exception out of commit(close=True) after the body returned) is nothing the model produces
+    e = {'XUser': '(XUser %d%%nat)' % r[2], 'XNotFound': 'XNotFound', 'XLocked': 'XLocked', 'XNoConnection': 'XNoConnection'}.get(code, 'XNested')
     return '(Raised %s %d%%nat)' % (e, r[3])
 
 
@@ -505,7 +506,7 @@ def coq_case(case, obs):
     sched = '; '.join('(%d%%nat, %s)' % (t, cobs(o)) for t, o in zip(case['sched'], obs['steps']))
     bodies = '; '.join('[%s]' % '; '.join(cstep(s) for s in b) for b in case['bodies'])
     poison = '; '.join('None' if x is None else '(Some %s)' % z(x) for x in (case.get('poison') or [None] * len(case['bodies'])))
-    return '{| c_thread_level := %s; c_table := %s; c_bodies := [%s]; c_poison := [%s]; c_sched := [%s] |}' % (
+    return '{| c_thread_level := %s; c_table := %s; c_bodies := [%s]; c_broken := [%s]; c_sched := [%s] |}' % (
         cb(case['mode'] == 'thread'), ctab(obs['initial']['table']), bodies, poison, sched)
 
 
@@ -605,13 +606,7 @@ def failures(case, obs):
 
 
 def classify(case, obs, f):
-    """the one open finding: commit(close=True) raised out of its expiry loop (the thread's environment was prepared for it)"""
-    t = f.get('thread')
-    r = f.get('result')
-    poison = case.get('poison') or []
-    if f.get('kind') in ('committed_but_raised', 'not_released') and r and r[0] == 'exc' and r[1] == 'XCommit' \
-            and t is not None and t < len(poison) and poison[t] is not None and not case.get('cache', True):
-        return 'commit_raises_after_commit'
+    """no open finding (commit_raises_after_commit is fixed: its witnesses stay in the corpus and must pass)"""
     return None
 
 
